@@ -5,23 +5,56 @@ class C32(Spec):
     prop = "C32"
     drv = "drv_c32"
     harness = "h_c32"
-    required_theorems = ("C32.run_refines_spec", "C32.accepted_contiguous", "C32.delivered_contiguous",
-                         "C32.delivered_from_resume", "C32.persisted_only_after_ack", "C32.three_failures_deactivate")
+    required_theorems = ("C32.run_refines_spec", "C32.run_refines_strict", "C32.accepted_delivery", "C32.run_delivery",
+                         "C32.accepted_contiguous_partial", "C32.delivered_contiguous_partial",
+                         "C32.delivered_dense_partial", "C32.delivered_from_resume_partial", "C32.delivered_full_false",
+                         "C32.persisted_only_after_ack", "C32.pending_only_from_ack", "C32.step_persisted_shape",
+                         "C32.accepted_three_strikes", "C32.run_three_strikes")
+    # hypotheses: strict acceptance / noLoss = no store failure and no crash between PostData (ack) and
+    # setLastPushSeq (record); dense = no range without matching data (see level_note)
+    partial = ("C32.accepted_contiguous_partial", "C32.delivered_contiguous_partial", "C32.delivered_dense_partial",
+               "C32.delivered_from_resume_partial")
+    refuted = ("C32.delivered_full_false",)
     level_text = ("Two-layer Lean proof: the task loop of blockchain/push.go (notification consumption with back-off, "
-                  "post acknowledged / refused, deactivation after three failures, re-registration, node restart) as a "
-                  "transition function over ANY fault history refines a specification acceptor written from the property "
-                  "text (run_refines_spec, by a simulation relation); every accepted event trace has its acknowledged "
-                  "ranges chained from the resume point — strictly increasing, no gaps, no repeats — and records a sequence "
-                  "only right after its acknowledgement (accepted_contiguous, delivered_from_resume, "
-                  "persisted_only_after_ack). Tie: trace validation — the real Push runs against a scripted HTTP "
-                  "subscriber and in-memory stores under generated fault histories (bursts of blocks, refusals of three "
-                  "kinds, immediate and late re-registration, restarts), every visible event is logged in order and must "
-                  "be accepted by the compiled specification; the predicate is also evaluated directly on the log.")
-    level_note = ("header/block subscriptions only (payload never empty); the data source is abstract (a post covers "
-                  "last+1..last+n); timers (1 s retry sleeps), HTTP and goroutine scheduling are runtime — liveness is not "
-                  "claimed; store write failures (ignored by the code) are not modelled. Found and fixed in /repo: a "
-                  "second task goroutine on quick re-registration (fix e771544).")
-    assumptions = ("one registration request at a time per subscriber name (concurrent registrations are outside the quantifier)",)
+                  "post acknowledged / refused, ranges WITHOUT matching data of the contract-filter subscriptions "
+                  "(in-memory cursor advance without record), the oversize-first-block stall, record written / store "
+                  "error ignored / crash between acknowledgement and record, deactivation after three failures, "
+                  "re-registration, node restart) as a transition function over ANY fault history refines a "
+                  "specification acceptor written from the property text (run_refines_spec; run_refines_strict for "
+                  "histories without a lost record; by a simulation relation). Every accepted trace: EVERY post, "
+                  "acknowledged or refused, and every skipped range starts right after the task's cursor, "
+                  "retransmissions start at the same sequence, a (re)started task stands at the record "
+                  "(accepted_delivery, run_delivery); a record is written only right after the acknowledged post ending "
+                  "there (persisted_only_after_ack, pending_only_from_ack, step_persisted_shape); three consecutive "
+                  "refused posts are followed by the deactivation before any further post, in whole runs "
+                  "(accepted_three_strikes, run_three_strikes); acknowledged ranges strictly increasing — and gap-free "
+                  "for dense subscriptions — from the resume point when no record is lost (…_partial); the full "
+                  "statement over histories with lost records is refuted (delivered_full_false). Tie: trace "
+                  "validation — the real Push (PushBlock, PushBlockHeader, PushTxReceipt with a contract filter, "
+                  "PushTxResult) runs against a scripted HTTP subscriber and in-memory stores under generated fault "
+                  "histories (bursts of blocks, blocks with/without matching transactions, 1 MB size cuts, refusals of "
+                  "three kinds, immediate and late re-registration, restarts, failing writes of the last-pushed key, "
+                  "crashes frozen between ack and record), every visible event is logged in order and must be accepted by "
+                  "the compiled specification (strict for histories without injected store faults); the predicate is "
+                  "also evaluated directly on the log and on the payload contents (every matching block listed, nothing "
+                  "else, nothing twice).")
+    level_note = ("PushEVMEvent is not driven (getEVMEvent has the same loop as getTxReceipts); the data source is "
+                  "abstract (a pass covers last+1..last+n; which sequences hold matching data is an oracle input, the "
+                  "harness checks the payloads against the blocks); timers (1 s retry sleeps), HTTP and goroutine "
+                  "scheduling are runtime — liveness is not claimed in Lean; the stall on an oversize first block is an "
+                  "event the specification tolerates and is reported by the harness predicate (finding). DECLARED, not a "
+                  "finding: an acknowledged range is delivered again after a crash or an ignored setLastPushSeq error "
+                  "between ack and record — at-least-once delivery across that window; crashes and store errors are not "
+                  "in the property's fault list, and no implementation without a two-phase handshake can avoid it "
+                  "(delivered_full_false on the witness subscribe 5; post 6..9 acked; crash; post 6..9 again — replayed on the real code as w-crash / w-store-fail; the …_partial theorems carry the hypothesis noLoss: no store failure and no crash between ack and record; for filter subscriptions their conclusion is 'strictly increasing, no repeats', the no-gap form needs dense histories). A subscriber without a recorded point ('start from the "
+                  "newest') loses its in-memory cursor on restart and starts from the newest again. The write of the "
+                  "not-active status after the third failure also ignores its error (not modelled). For filter posts the "
+                  "end of the covered range is observable only through the record / the next pass; the harness takes it "
+                  "from there and checks it against the blocks read. Found and fixed in /repo earlier: a second task "
+                  "goroutine on quick re-registration (fix e771544). Open findings: findings.d/C32.json (two defects of "
+                  "the size-limit handling in getTxReceipts/getEVMEvent).")
+    assumptions = ("one registration request at a time per subscriber name (concurrent registrations are outside the quantifier)",
+                   "the sequence log is append-only: whether a sequence holds matching data does not change")
     quick_timeout = 900
 
 
